@@ -71,6 +71,7 @@ const (
 )
 
 type seg struct {
+	Pad    int // inner whitespace variant of an action (0: one blank; others: two blanks, newline+blank, tab+blank before the closer / after the opener)
 	Kind   segKind
 	Text   string // text or comment body
 	Eff    actEffect
@@ -97,6 +98,21 @@ func (s seg) src(d delimCfg, tight bool) string {
 	}
 	if s.RT {
 		post = " -"
+	}
+	// more whitespace inside the action changes nothing (the marker is the last blank + '-' before the closer)
+	switch s.Pad {
+	case 1:
+		post = " " + post
+	case 2:
+		post = "\n" + post
+	case 3:
+		post = "\t" + post
+		pre = pre + " "
+	case 4:
+		pre = pre + "\n"
+	}
+	if s.Pad != 0 && post == "" {
+		post = " "
 	}
 	return d.L + pre + b + post + d.R
 }
@@ -130,7 +146,7 @@ func (s seg) kindCode() string {
 
 const c03ws = " \t\r\n"
 
-var c03core = []string{"a", "b", "x", "0", "{", "}", "*", "-", "[", "]", "<", ">", "%", "#", "\"", "'", "&", "é", "«", "»", "日", "\f", "\v", " ", "\u0085", " ", "$", "@", "/", "!", "(", ")", "‹", "›", ".", "|", "{ {", "- ", " -", "--"}
+var c03core = []string{"\ufeff", "a", "b", "x", "0", "{", "}", "*", "-", "[", "]", "<", ">", "%", "#", "\"", "'", "&", "é", "«", "»", "日", "\f", "\v", " ", "\u0085", " ", "$", "@", "/", "!", "(", ")", "‹", "›", ".", "|", "{ {", "- ", " -", "--"}
 
 func c03genWS(r *rand.Rand, max int) string {
 	n := 1 + r.Intn(max)
@@ -352,6 +368,9 @@ func (g *c03gen) add(s seg) {
 
 func (g *c03gen) act(eff actEffect, lt, rt bool) seg {
 	s := seg{Kind: segAct, Eff: eff, LT: lt, RT: rt}
+	if eff != effNeg && g.r.Intn(4) == 0 {
+		s.Pad = 1 + g.r.Intn(4)
+	}
 	switch eff {
 	case effMark:
 		g.nm++
@@ -473,6 +492,10 @@ func c03run(c *fw.Ctx, idx int) {
 				g.add(g.act(effMark, r.Intn(2) == 0, r.Intn(2) == 0))
 			}
 			class = "header"
+		}
+		if class == "random" && r.Intn(8) == 0 {
+			// a byte order mark is text like any other, also as the very first thing in a file that comes from a loader
+			g.add(seg{Kind: segText, Text: "\ufeff" + c03genText(r, r.Intn(5))})
 		}
 		g.genList(0, 2+r.Intn(7))
 	}
